@@ -34,6 +34,8 @@ struct Case {
     p2: u32,
     seed: u64,
     lr: f64,
+    /// offset added to the objective values of reactant i and product p1 (it cancels in every energy balance)
+    off: f64,
 }
 
 fn total(pop: &[Individual<P>], mols: &[Molecule<P>], buffer: f64) -> f64 {
@@ -45,24 +47,32 @@ fn close(a: f64, b: f64) -> bool {
 }
 
 fn run_case(out: &mut Out, run: u64, c: &Case) {
-    let problem = TagProblem::identity(1 << 12);
+    let mut problem = TagProblem::identity(1 << 12);
+    if c.off != 0.0 {
+        // tags >= 2048 carry the offset: reactant i and product p1 are re-tagged
+        for t in 2048..(1 << 12) {
+            problem.table[t] = (t - 2048) as f64 + c.off;
+        }
+    }
+    let big = |t: u32| if c.off != 0.0 { t + 2048 } else { t };
     let mut state: State<P> = State::new();
-    let pop: Vec<Individual<P>> = c.pe.iter().map(|t| problem.evaluated(*t)).collect();
+    let pop: Vec<Individual<P>> =
+        c.pe.iter().enumerate().map(|(k, t)| problem.evaluated(if c.off != 0.0 && k + 1 == c.i { big(*t) } else { *t })).collect();
     let mols: Vec<Molecule<P>> = pop.iter().zip(&c.ke).map(|(x, k)| Molecule::new(*k, x.clone())).collect();
     let reactants: Vec<Individual<P>> = match c.op.as_str() {
-        "init" => Vec::new(),
+        "init" | "scoped_init" => Vec::new(),
         "on_wall" | "decompose" => vec![pop[c.i - 1].clone()],
         _ => vec![pop[c.i - 1].clone(), pop[c.j - 1].clone()],
     };
     let products: Vec<Individual<P>> = match c.op.as_str() {
-        "init" => Vec::new(),
-        "on_wall" | "synthesis" => vec![problem.evaluated(c.p1)],
-        _ => vec![problem.evaluated(c.p1), problem.evaluated(c.p2)],
+        "init" | "scoped_init" => Vec::new(),
+        "on_wall" | "synthesis" => vec![problem.evaluated(big(c.p1))],
+        _ => vec![problem.evaluated(big(c.p1)), problem.evaluated(c.p2)],
     };
     let before_total = total(&pop, &mols, c.buffer);
     let mut pops = Populations::<P>::new();
     pops.push(pop.clone());
-    if c.op != "init" {
+    if c.op != "init" && c.op != "scoped_init" {
         pops.push(reactants);
         pops.push(products);
     }
@@ -72,16 +82,33 @@ fn run_case(out: &mut Out, run: u64, c: &Case) {
     state.insert(EnergyBuffer(c.buffer));
     let comp: Box<dyn Component<P>> = match c.op.as_str() {
         // the initialisation component executed on a state that already holds molecule records
-        "init" => mahf::components::misc::cro::ChemicalReactionInit::new(c.p1 as f64, 0.0),
+        "init" | "scoped_init" => mahf::components::misc::cro::ChemicalReactionInit::new(c.p1 as f64, 0.0),
         "on_wall" => OnWallIneffectiveCollisionUpdate::new(c.lr),
         "decompose" => DecompositionUpdate::new(),
         "intermolecular" => IntermolecularIneffectiveCollisionUpdate::new(),
         "synthesis" => SynthesisUpdate::new(),
         other => panic!("unknown reaction {other}"),
     };
-    let result: Result<ExecResult<()>, String> = caught(std::panic::AssertUnwindSafe(|| comp.execute(&problem, &mut state)));
+    let result: Result<ExecResult<()>, String> = caught(std::panic::AssertUnwindSafe(|| {
+        if c.op == "scoped_init" {
+            // a second reaction system set up and used inside a child scope on a copy of the population
+            let inner_pop = pop.clone();
+            state
+                .with_inner_state(|inner| {
+                    comp.init(&problem, inner)?;
+                    inner.populations_mut().push(inner_pop);
+                    comp.execute(&problem, inner)?;
+                    inner.populations_mut().pop();
+                    Ok(())
+                })
+                .map(|_| ())
+        } else {
+            comp.execute(&problem, &mut state)
+        }
+    }));
     let base = json!({"run": run, "op": c.op, "i": c.i, "j": c.j, "p1": c.p1, "p2": c.p2, "pe": c.pe,
-                      "ke": c.ke.iter().map(|k| *k as i64).collect::<Vec<_>>(), "buffer": c.buffer as i64, "seed": c.seed, "lr": c.lr});
+                      "ke": c.ke.iter().map(|k| *k as i64).collect::<Vec<_>>(), "buffer": c.buffer as i64, "seed": c.seed, "lr": c.lr,
+                      "big": (c.off != 0.0) as i64});
     let mut rec = base.as_object().unwrap().clone();
     let bad = |rec: &mut serde_json::Map<String, Value>, what: &str, err: String| {
         rec.insert("res".into(), json!(what));
@@ -113,7 +140,7 @@ fn run_case(out: &mut Out, run: u64, c: &Case) {
             let cons = close(before_total, after_total);
             let nonneg = buffer2 >= 0.0 && mols2.iter().all(|m| m.kinetic_energy >= 0.0);
             // participants: reactant positions (0-based) before; products sit at i (and j, or at the end for decomposition)
-            if c.op == "init" {
+            if c.op == "init" || c.op == "scoped_init" {
                 let aligned = mols2.len() == pop2.len() && mols2.iter().zip(&pop2).all(|(m, x)| m.best == *x);
                 rec.insert("res".into(), json!(if accepted { "changed" } else { "unchanged" }));
                 rec.insert("pe2".into(), json!(pop2.iter().map(|x| x.objective().value() as i64).collect::<Vec<_>>()));
@@ -172,7 +199,7 @@ fn run_case(out: &mut Out, run: u64, c: &Case) {
             let kef = mols2.get(pos_i).map(|m| m.kinetic_energy.floor() as i64).unwrap_or(-1);
             let bf = if c.op == "on_wall" { buffer2.ceil() as i64 } else { buffer2.floor() as i64 };
             rec.insert("res".into(), json!(if accepted { "changed" } else { "unchanged" }));
-            rec.insert("pe2".into(), json!(pop2.iter().map(|x| x.objective().value() as i64).collect::<Vec<_>>()));
+            rec.insert("pe2".into(), json!(pop2.iter().map(|x| if *x.solution() >= 2048 { *x.solution() as i64 - 2048 } else { *x.solution() as i64 }).collect::<Vec<_>>()));
             rec.insert("nm".into(), json!(mols2.len()));
             rec.insert("bf".into(), json!(bf));
             rec.insert("kef".into(), json!(kef));
@@ -228,6 +255,7 @@ pub fn main(args: &Args) -> usize {
                         p2: a["p2"].as_u64().unwrap() as u32,
                         seed: args.seed() + s,
                         lr: if s % 2 == 0 { 0.1 } else { 0.0 },
+                        off: 0.0,
                     };
                     run_case(&mut out, run, &c);
                     run += 1;
@@ -248,7 +276,8 @@ pub fn main(args: &Args) -> usize {
                 let buffer = if r.gen_bool(0.3) { 0.0 } else { r.gen_range(0..=2 * maxe) as f64 };
                 if r.gen_range(0..12) == 0 {
                     let k0 = r.gen_range(0..=maxe);
-                    let c = Case { pe, ke, buffer, op: "init".to_string(), i: 0, j: 0, p1: k0, p2: 0, seed: args.seed() ^ run, lr: 0.1 };
+                    let op = if r.gen_bool(0.5) { "init" } else { "scoped_init" };
+                    let c = Case { pe, ke, buffer, op: op.to_string(), i: 0, j: 0, p1: k0, p2: 0, seed: args.seed() ^ run, lr: 0.1, off: 0.0 };
                     run_case(&mut out, run, &c);
                     continue;
                 }
@@ -276,7 +305,9 @@ pub fn main(args: &Args) -> usize {
                     _ => r.gen_range(0..=2 * maxe),
                 };
                 let (p1, p2) = (pick(&mut r), pick(&mut r));
-                let c = Case { pe, ke, buffer, op: op.to_string(), i, j, p1, p2, seed: args.seed() ^ run, lr: [0.0, 0.1, 0.9][r.gen_range(0..3)] };
+                // every fifth case: reactant i and its product share a huge offset (energies of very different magnitude)
+                let off = if run % 5 == 4 { (1u64 << 60) as f64 } else { 0.0 };
+                let c = Case { pe, ke, buffer, op: op.to_string(), i, j, p1, p2, seed: args.seed() ^ run, lr: [0.0, 0.1, 0.9][r.gen_range(0..3)], off };
                 run_case(&mut out, run, &c);
             }
         }
